@@ -324,6 +324,41 @@ int main(int argc, char **argv) {
     while (std::getline(std::cin, line)) {
         std::vector<std::string> f = split_ws(line);
         case_begin(f.empty() ? std::string("?") : f[0]);
+        if (f.size() >= 17 && f[1] == "coll") {
+            // <id> coll <font> <hex utf32 text> <slot index> <dir> Lbx Lby Ltx Lty ox oy sx sy <axis> <end 0|1> <margin>
+            // the limit clause of C17 on the real ShiftCollider: initSlot with the given limit / offset / shift, then every position
+            // except a sliver at one end of one axis is excluded through the Zones API and resolve() has to answer from there
+            using namespace graphite2;
+            const std::string &id = f[0];
+            gr_face *face = get_face(f[2], 0, false);
+            if (!face) { printf("%s NOFACE\n", id.c_str()); fflush(stdout); case_end(); continue; }
+            std::vector<uint32_t> u = parse_units(f[3], 32);
+            void *buf = mkbuf<uint32_t>(u);
+            int dir = atoi(f[5].c_str());
+            gr_segment *seg = gr_make_seg(0, face, 0, 0, gr_utf32, buf, u.size(), dir);
+            free(buf);
+            Segment *gs = static_cast<Segment *>(seg);
+            Slot *sl = 0;
+            if (seg) { int k = atoi(f[4].c_str()); for (Slot *q = gs->first(); q; q = q->next(), --k) if (k == 0) { sl = q; break; } }
+            if (!seg || !sl || !gs->collisionInfo(sl)) { if (seg) gr_seg_destroy(seg); printf("%s COLL none\n", id.c_str()); fflush(stdout); case_end(); continue; }
+            float v[8]; for (int i = 0; i < 8; i++) v[i] = (float)atof(f[6 + i].c_str());
+            int axis = atoi(f[14].c_str()) & 3, end = atoi(f[15].c_str()) & 1; float margin = (float)atof(f[16].c_str());
+            ShiftCollider sc(0);
+            bool ok = sc.initSlot(gs, sl, Rect(Position(v[0], v[1]), Position(v[2], v[3])), margin, 1.f, Position(v[6], v[7]), Position(v[4], v[5]), dir, 0);
+            std::string out = id + " COLL init=" + (ok ? "1" : "0") + " R";
+            if (ok) {
+                for (int i = 0; i < 4; i++) out += " " + fnum(sc._ranges[i]._pos) + "," + fnum(sc._ranges[i]._posm);
+                float mn = sc._ranges[axis]._pos, mx = sc._ranges[axis]._posm, w = (mx - mn) / 8;
+                for (int i = 0; i < 4; i++) if (i != axis) sc._ranges[i].exclude(-1e9f, 1e9f);
+                if (end) sc._ranges[axis].exclude(mn - 1, mx - w); else sc._ranges[axis].exclude(mn + w, mx + 1);
+                bool isCol = true;
+                Position r = sc.resolve(gs, isCol, 0);
+                out += " | shift=" + fnum(r.x) + "," + fnum(r.y) + " isCol=" + (isCol ? "1" : "0");
+            }
+            gr_seg_destroy(seg);
+            printf("%s\n", out.c_str()); fflush(stdout); case_end();
+            continue;
+        }
         if (f.size() >= 6 && f[1] == "synth") {
             // <id> synth <font> <rtl> <ppm,ppm,...|-> <par,shx,shy,advx,advy,atx,aty,wx,wy,just> ...
             // final positioning on a hand-built attachment forest (C15): the slots of an N-character segment get the given
